@@ -148,9 +148,17 @@ class Threadless(ABC, Generic[T]):
         # be interested in the same fd.  Descriptors of interests
         # returned by work must be unique.
         #
-        # TODO: Ideally we must diff and unregister socks not
-        # returned of interest within current _select_events call
-        # but exists in the registered_socks_by_work_ids registry.
+        # Unregister descriptors which exists in the registry but
+        # work is no longer interested in, e.g. an upstream connection
+        # which work has closed and replaced by another one.  Otherwise,
+        # a stale entry shadows the new descriptor when its number is reused.
+        for fileno in list(self.registered_events_by_work_ids.get(work_id, {})):
+            if fileno not in worker_events:
+                try:
+                    self.selector.unregister(fileno)
+                except (KeyError, ValueError, OSError):
+                    pass
+                del self.registered_events_by_work_ids[work_id][fileno]
         for fileno in worker_events:
             if work_id not in self.registered_events_by_work_ids:
                 self.registered_events_by_work_ids[work_id] = {}
